@@ -3,7 +3,7 @@
 use crate::core::*;
 #[allow(unused_imports)]
 use crate::core::StatsExt;
-use crate::gen::{gen_graph, GraphParams};
+use crate::gen::{exhaustive_count, exhaustive_graph, gen_graph, GraphParams};
 use crate::loader::*;
 use crate::model::{reachable_cycle, run_model, Verdict};
 use crate::simfs::FsStore;
@@ -232,13 +232,42 @@ impl Prop for C02 {
         "exploration"
     }
     fn runs(&self, tier: Tier) -> u64 {
+        let small = 4 * (exhaustive_count(1) + exhaustive_count(2));
         match tier {
-            Tier::Quick => 60_000,
-            Tier::Thorough => 3_000_000,
+            Tier::Quick => small + 60_000,
+            Tier::Thorough => small + 2 * exhaustive_count(3) + 3_000_000,
         }
     }
-    fn run(&self, seed: u64, index: u64, _tier: Tier, stats: &mut Stats) -> Vec<Violation> {
+    fn run(&self, seed: u64, index: u64, tier: Tier, stats: &mut Stats) -> Vec<Violation> {
         let mut rng = Rng::new(seed);
+        // exhaustive sections first: all graphs over 1 and 2 files (quick and thorough), over 3 files
+        // (thorough), each under four layout variants (canonical / aliased urls x marker position)
+        let small = 4 * (exhaustive_count(1) + exhaustive_count(2));
+        let three = if tier == Tier::Thorough { 2 * exhaustive_count(3) } else { 0 };
+        if index < small + three {
+            let (n, code, variant) = if index < 4 * exhaustive_count(1) {
+                (1, index / 4, index % 4)
+            } else if index < small {
+                let k = index - 4 * exhaustive_count(1);
+                (2, k / 4, k % 4)
+            } else {
+                let k = index - small;
+                (3, k / 2, k % 2)
+            };
+            let spec = exhaustive_graph(n, code, variant, &mut rng);
+            let case = Case { spec, chunk: Chunking::NONE };
+            stats.inc("runs");
+            stats.inc(&format!("stratum:exhaustive_n{n}"));
+            let (j, o) = judge(&case, stats);
+            match &j {
+                Judgement::Pass | Judgement::Fail { .. } => stats.inc("judged"),
+                Judgement::Unjudged(_) => stats.inc("unjudged"),
+            }
+            if let Some(o) = &o {
+                stats.nontrivial(o.history_digest());
+            }
+            return to_violations(&case, j, o.as_ref());
+        }
         let mut params = GraphParams::stratified(index % GraphParams::STRATA, &mut rng);
         if index % 53 == 7 {
             // a long chain of nested loads (33-48 files deep): depth is not a cycle
@@ -316,7 +345,7 @@ impl Prop for C02 {
         crate::core::world_a_extra(stats)
     }
     fn rule(&self) -> String {
-        "One run = one generated load graph (1-4 files, sometimes 5-8; edges drawn from @use/@forward/@import/meta.load-css; urls spelled canonically or with ./, x/../ and ../d/ noise; 0-2 load paths; wrappers) compiled by the real library through SimLoader, judged against reachability of a cycle over canonical file identity; strata = file count x kind subset x spelling class x cyclic, hit round-robin. A run is non-trivial when the graph has at least one load; distinct = distinct digests of (loader event history, result). Every 40th run is also materialised on the real file system and compiled through the real FsLoader; the result must equal the simulated one (probe stub_validated_against_real).".into()
+        "Runs 0..2520 enumerate EVERY directed graph over 1 and over 2 files in which each ordered pair of files (self-loops included) carries no load or one load of one of the four kinds, under four layout variants (canonical / aliased urls x marker before / after the loads); in the thorough tier the next 3 906 250 runs enumerate every such graph over 3 files (5^9) under two variants. The remaining runs: one generated load graph (1-4 files, sometimes 5-8, every 53rd a chain 33-48 files deep; edges drawn from @use/@forward/@import/meta.load-css; urls spelled canonically or with ./, x/../ and ../d/ noise; 0-2 load paths; wrappers) compiled by the real library through SimLoader, judged against reachability of a cycle over canonical file identity; strata = file count x kind subset x spelling class x cyclic, hit round-robin. A run is non-trivial when the graph has at least one load; distinct = distinct digests of (loader event history, result). Every 40th run is also materialised on the real file system and compiled through the real FsLoader; the result must equal the simulated one (probe stub_validated_against_real).".into()
     }
     fn assumptions(&self) -> Vec<String> {
         vec![
